@@ -1,3 +1,5 @@
+#[cfg(trusttunnel_verif)]
+use crate::verif::tokio;
 use crate::forwarder::{Forwarder, IcmpMultiplexer, UdpMultiplexer};
 use crate::settings::{ForwardProtocolSettings, Settings, Socks5ForwarderSettings};
 use crate::tcp_forwarder::TcpForwarder;
